@@ -348,6 +348,13 @@ class Fn:
         cs = [c for c in cs if not c.is_abstract]
         if len(cs) == 1 and how == "repo":
             return cs[0]
+        if not cs and how in ("callable-param", "unresolved", "unknown") and isinstance(call.func, (ast.Attribute, ast.Name)) and hasattr(call.func, "_orig"):
+            # the call was written through a parameter / local (`make(n)`), and the callable has since been substituted
+            # (`_Factory().filter_for(n)`): resolve by what the substituted callable is
+            t = self.type_of(call.func)
+            fns = [m[1] for m in (t[1] if t[0] == "union" else [t]) if m[0] == "fn"]
+            if len(fns) == 1 and not fns[0].is_abstract and not isinstance(fns[0].node, ast.Lambda):
+                return fns[0]
         return None
 
     def callees(self, call: ast.Call) -> tuple[list[FuncInfo], str]:
@@ -437,6 +444,11 @@ class Fn:
         new._orig = getattr(e, "_orig", (self.fi, e))  # type: ignore[attr-defined]
         if isinstance(new, ast.Call) and isinstance(new.func, ast.Lambda):
             r = beta(new.func, new.args, new.keywords)
+            if r is not None:
+                return r
+        if isinstance(new, ast.Call) and isinstance(e, ast.Call) and isinstance(e.func, ast.Name) and isinstance(new.func, ast.Attribute) and depth > 0:
+            # a local that holds a bound method (`make = _Factory().filter_for; make(x)`): the call through the method
+            r = self.summarise(new, use_stmt, depth - 1, keep)
             if r is not None:
                 return r
         if isinstance(new, ast.Call) and isinstance(new.func, ast.Call) and new.func.args and self.lib_name(new.func.func) in ("functools.partial", "partial"):
@@ -697,14 +709,14 @@ class Fn:
         return out
 
 
-def class_view(repo: Repo, fi: FuncInfo, concrete, allow=None, max_depth: int = 4) -> FuncInfo:
+def class_view(repo: Repo, fi: FuncInfo, concrete, allow=None, max_depth: int = 4, inline_ctor=None) -> FuncInfo:
     """Inlined view (core/inline_stmt.py) of method `fi` *as executed on an instance of class `concrete`*: calls on `self` / `cls` /
     `super()` are resolved by the method resolution order of `concrete` instead of by class-hierarchy analysis, so template methods
     (abstract in the base class, overridden or extended in subclasses) are inlined with the implementation that really runs."""
     from core.inline_stmt import Inliner
 
     cache = repo.__dict__.setdefault("_c11_class_views", {})
-    key = (fi.fq, concrete.fq, id(allow), max_depth)
+    key = (fi.fq, concrete.fq, id(allow), max_depth, id(inline_ctor))
     if key in cache:
         return cache[key]
     T = types_of(repo)
@@ -728,7 +740,7 @@ def class_view(repo: Repo, fi: FuncInfo, concrete, allow=None, max_depth: int = 
                     return None if (target.is_abstract or target.is_property) else target
             return super()._resolve(ctx, call)
 
-        def _expand(self, ctx, call, callee, taken, origin, stack):  # noqa: ANN001
+        def _expand_super(self, ctx, call, callee, taken, origin, stack):  # noqa: ANN001
             # super().m(...) runs m on the very same object: bind the callee's `self` to the caller's, not to the proxy
             f = call.func
             if isinstance(f, ast.Attribute) and isinstance(f.value, ast.Call) and isinstance(f.value.func, ast.Name) and f.value.func.id == "super" and ctx.params and not callee.is_staticmethod:
@@ -738,13 +750,341 @@ def class_view(repo: Repo, fi: FuncInfo, concrete, allow=None, max_depth: int = 
                 if hasattr(call, "_src"):
                     call2._src = call._src  # type: ignore[attr-defined]
                 call = call2
-            return super()._expand(ctx, call, callee, taken, origin, stack)
+            return Inliner._expand(self, ctx, call, callee, taken, origin, stack)
+
+        # ---- arguments: a helper call that is itself an argument (of another helper call, of a constructor, of a raise) is part
+        # of the pipeline as well: `self._message(self._find(evaluable))`, `raise AssertionError(self._message(...))`,
+        # `self._detector(mapping).judge(a, b)`.  It is given a name in front of the statement (everything evaluated before it
+        # is named too, in evaluation order, so that nothing moves across a state change) and then inlined like `x = helper()`.
+        # ---- `try: ...; return e  except X: raise ...` wrappers: the value leaves the function only through the `return` that
+        # ends the try body, so the helper is inlined with `result = e` inside the try and `return result` after it
+        @staticmethod
+        def _try_return_shape(callee) -> bool:  # noqa: ANN001
+            body = strip_docstring(callee.node.body)
+            if not body or not isinstance(body[-1], ast.Try):
+                return False
+            t = body[-1]
+            if t.orelse or not t.body or not isinstance(t.body[-1], ast.Return) or t.body[-1].value is None:
+                return False
+            others = [x for st in [*body[:-1], *t.body[:-1], *t.finalbody, *[y for h in t.handlers for y in h.body]] for x in ast.walk(st) if isinstance(x, ast.Return)]
+            if others:
+                return False
+            return all(h.body and isinstance(h.body[-1], ast.Raise) for h in t.handlers)
+
+        @staticmethod
+        def _try_else_shape(callee) -> bool:  # noqa: ANN001
+            """`<pre>; try: <no return> except X: ...; return a  <post>; return b` - what follows the try runs only if nothing
+            was caught: it becomes the `else` block, and every exit assigns the result"""
+            body = strip_docstring(callee.node.body)
+            tries = [i for i, st in enumerate(body) if isinstance(st, ast.Try)]
+            if len(tries) != 1 or not isinstance(body[-1], ast.Return) or body[-1].value is None:
+                return False
+            t = body[tries[0]]
+            if t.orelse or t.finalbody or not t.handlers or tries[0] == len(body) - 1:
+                return False
+            if any(isinstance(x, ast.Return) for st in [*body[:tries[0]], *t.body, *body[tries[0] + 1:-1]] for x in ast.walk(st)):
+                return False
+            for h in t.handlers:
+                if not h.body or not isinstance(h.body[-1], (ast.Return, ast.Raise)) or (isinstance(h.body[-1], ast.Return) and h.body[-1].value is None):
+                    return False
+                if any(isinstance(x, ast.Return) for st in h.body[:-1] for x in ast.walk(st)):
+                    return False
+            return True
+
+        def _eligible(self, caller, callee, form):  # noqa: ANN001
+            if Inliner._eligible(self, caller, callee, form):
+                return True
+            if form in ("expr", "assign") and not isinstance(callee.node, ast.Lambda) and (self._try_return_shape(callee) or self._try_else_shape(callee)):
+                return Inliner._eligible(self, caller, callee, "return")
+            return False
+
+        def _expand(self, ctx, call, callee, taken, origin, stack):  # noqa: ANN001, F811
+            got = self._expand_super(ctx, call, callee, taken, origin, stack)
+            if got is None:
+                return None
+            prefix, body = got
+            if body and isinstance(body[-1], ast.Try) and body[-1].body and isinstance(body[-1].body[-1], ast.Return) and self._try_return_shape(callee):
+                t = body[-1]
+                ret = t.body[-1]
+                new = Inliner._fresh("result", callee.name, taken)
+                taken.add(new)
+                st = ast.copy_location(ast.Assign(targets=[ast.copy_location(ast.Name(id=new, ctx=ast.Store()), ret)], value=ret.value), ret)
+                if hasattr(ret, "_src"):
+                    st._src = ret._src  # type: ignore[attr-defined]
+                t.body[-1] = st
+                body.append(ast.copy_location(ast.Return(value=ast.copy_location(ast.Name(id=new, ctx=ast.Load()), ret)), ret))
+            elif body and isinstance(body[-1], ast.Return) and self._try_else_shape(callee):
+                ti = next(i for i, st in enumerate(body) if isinstance(st, ast.Try))
+                t = body[ti]
+                new = Inliner._fresh("result", callee.name, taken)
+                taken.add(new)
+
+                def to_assign(ret):  # noqa: ANN001
+                    st = ast.copy_location(ast.Assign(targets=[ast.copy_location(ast.Name(id=new, ctx=ast.Store()), ret)], value=ret.value), ret)
+                    if hasattr(ret, "_src"):
+                        st._src = ret._src  # type: ignore[attr-defined]
+                    return st
+
+                last = body[-1]
+                t.orelse = body[ti + 1:-1] + [to_assign(last)]
+                for h in t.handlers:
+                    if isinstance(h.body[-1], ast.Return):
+                        h.body[-1] = to_assign(h.body[-1])
+                body = body[:ti + 1] + [ast.copy_location(ast.Return(value=ast.copy_location(ast.Name(id=new, ctx=ast.Load()), last)), last)]
+            if prefix:
+                prefix = self._block(ctx, prefix, taken, origin, stack)  # parameter bindings `p = helper(...)`
+            return prefix, body
+
+        def _target(self, ctx, e, stack):  # noqa: ANN001
+            """helper call with a multi-statement body that the statement forms would inline"""
+            if not isinstance(e, ast.Call) or len(stack) > self.max_depth:
+                return None
+            callee = self._resolve(ctx, e)
+            if callee is None or callee.fq in stack or isinstance(callee.node, ast.Lambda):
+                return None
+            body = strip_docstring(callee.node.body)
+            if len(body) == 1 and isinstance(body[0], ast.Return):
+                return None  # replaced in place by the expression inliner
+            return callee if self._eligible(ctx, callee, "assign") else None
+
+        def _hoist(self, ctx, s, taken, stack):  # noqa: ANN001
+            if isinstance(s, (ast.Expr, ast.Assign, ast.AnnAssign, ast.Return)):
+                fld, top_done = "value", True  # the statement forms handle a call that is the whole value
+            elif isinstance(s, ast.AugAssign):
+                fld, top_done = "value", False
+            elif isinstance(s, ast.If):
+                fld, top_done = "test", False
+            elif isinstance(s, ast.Raise):
+                fld, top_done = "exc", False
+            elif isinstance(s, (ast.For, ast.AsyncFor)):
+                fld, top_done = "iter", False
+            else:
+                return []
+            root = getattr(s, fld, None)
+            if not isinstance(root, ast.expr):
+                return []
+            order: list[ast.AST] = []
+            on_path: set[int] = set()
+
+            def scan(e) -> bool:  # noqa: ANN001
+                has = False
+                for ch in _strict_children(e):
+                    if scan(ch):
+                        has = True
+                if self._target(ctx, e, stack) is not None and not (e is root and top_done):
+                    order.append(e)
+                    has = True
+                if has:
+                    on_path.add(id(e))
+                return has
+
+            scan(root)
+            if not order:
+                return []
+            pre: list[ast.stmt] = []
+            left = [len(order)]
+            tids = {id(x) for x in order}
+
+            def name_it(e, base):  # noqa: ANN001
+                new = base if base not in taken else Inliner._fresh(base, "arg", taken)
+                taken.add(new)
+                st = ast.copy_location(ast.Assign(targets=[ast.copy_location(ast.Name(id=new, ctx=ast.Store()), e)], value=e), e)
+                if hasattr(s, "_src"):
+                    st._src = s._src  # type: ignore[attr-defined]
+                pre.append(st)
+                return ast.copy_location(ast.Name(id=new, ctx=ast.Load()), e)
+
+            def visit(e):  # noqa: ANN001
+                if id(e) not in on_path:
+                    if left[0] > 0 and not _trivial(e):
+                        return name_it(e, "value__before")
+                    return e
+                for ch in _strict_children(e):
+                    new = visit(ch)
+                    if new is not ch:
+                        _replace_child(e, ch, new)
+                if id(e) in tids:
+                    left[0] -= 1
+                    callee = self._target(ctx, e, stack)
+                    return name_it(e, f"{callee.name.strip('_') if callee is not None else 'call'}__result")
+                return e
+
+            new_root = visit(root)
+            if new_root is not root:
+                setattr(s, fld, new_root)
+            return pre
+
+        def _split(self, ctx, s, stack, depth=0):  # noqa: ANN001
+            """`x = a if c else b` with a helper call in a branch  ->  `if c: x = a  else: x = b` (the branches are not
+            evaluated unconditionally, so the calls cannot be named in front of the statement)."""
+            from core.inline_stmt import _recopy
+
+            v = getattr(s, "value", None)
+            if depth <= 3 and isinstance(v, ast.BoolOp) and len(v.values) > 1 and any(self._target(ctx, x, stack) is not None for br in v.values[1:] for x in ast.walk(br)):
+                # `x = a and b`  ->  `x = a; if x: x = b`      `x = a or b`  ->  `x = a; if not x: x = b`
+                tgt = s.targets[0] if isinstance(s, ast.Assign) and len(s.targets) == 1 else s.target if isinstance(s, ast.AnnAssign) else None
+                if isinstance(tgt, ast.Name):
+                    first = _recopy(s)
+                    first.value = v.values[0]
+                    rest = _recopy(s)
+                    rest.value = v.values[1] if len(v.values) == 2 else ast.copy_location(ast.BoolOp(op=v.op, values=v.values[1:]), v)
+                    test: ast.expr = ast.copy_location(ast.Name(id=tgt.id, ctx=ast.Load()), v)
+                    if isinstance(v.op, ast.Or):
+                        test = ast.copy_location(ast.UnaryOp(op=ast.Not(), operand=test), v)
+                    cond = ast.copy_location(ast.If(test=test, body=self._split(ctx, rest, stack, depth + 1), orelse=[]), s)
+                    if hasattr(s, "_src"):
+                        cond._src = s._src  # type: ignore[attr-defined]
+                    return [*self._split(ctx, first, stack, depth + 1), cond]
+            if depth > 3 or not isinstance(s, (ast.Assign, ast.AnnAssign, ast.Return, ast.Expr)) or not isinstance(v, ast.IfExp):
+                return [s]
+            if not any(self._target(ctx, x, stack) is not None for br in (v.body, v.orelse) for x in ast.walk(br)):
+                return [s]
+
+            def arm(e):  # noqa: ANN001
+                st = _recopy(s)
+                st.value = e
+                return self._split(ctx, st, stack, depth + 1)
+
+            new = ast.copy_location(ast.If(test=v.test, body=arm(v.body), orelse=arm(v.orelse)), s)
+            if hasattr(s, "_src"):
+                new._src = s._src  # type: ignore[attr-defined]
+            return [new]
+
+        # ---- small helper classes that own a part of the pipeline (`self._evaluation = _Evaluation(requirement, evaluable)` whose
+        # constructor does the work): `obj = object.__new__(C); <body of C.__init__ on obj>; target = obj`
+        def _ctor(self, ctx, s, taken, origin, stack):  # noqa: ANN001
+            v = getattr(s, "value", None)
+            if not isinstance(s, (ast.Assign, ast.AnnAssign)) or not isinstance(v, ast.Call) or len(stack) > self.max_depth:
+                return None
+            src = getattr(v, "_src", None)
+            c_ctx, orig = src if src is not None else (ctx, v)
+            if not isinstance(orig, ast.Call):
+                return None
+            try:
+                cs, how = self.T.callees(c_ctx, orig, byname_fallback=False)
+            except Exception:  # noqa: BLE001
+                return None
+            if how != "ctor" or len(cs) != 1 or cs[0].name != "__init__" or cs[0].cls is None or cs[0].fq in stack:
+                return None
+            init = cs[0]
+            ci = init.cls
+            if inline_ctor is None or not inline_ctor(init):
+                return None
+            if ci.bases or ci.is_dataclass or "__new__" in ci.methods or ci in mro or not self._eligible(ctx, init, "expr"):
+                return None
+            if any(isinstance(x, ast.Return) and x.value is not None for x in own_nodes(init.node)):
+                return None
+            new = Inliner._fresh(ci.name.strip("_").lower(), "object", taken)
+            taken.add(new)
+            recv = ast.copy_location(ast.Name(id=new, ctx=ast.Load()), v)
+            call2 = ast.copy_location(ast.Call(func=ast.copy_location(ast.Attribute(value=recv, attr="__init__", ctx=ast.Load()), v), args=v.args, keywords=v.keywords), v)
+            got = Inliner._expand(self, ctx, call2, init, taken, origin, stack)
+            if got is None:
+                taken.discard(new)
+                return None
+            prefix, body = got
+            if prefix:
+                prefix = self._block(ctx, prefix, taken, origin, stack)
+            from core.inline_stmt import single_exit
+
+            body, _t = single_exit(body, lambda ret: [])
+            alloc_call = ast.copy_location(ast.Call(func=ast.copy_location(ast.Attribute(value=ast.copy_location(ast.Name(id="object", ctx=ast.Load()), v), attr="__new__", ctx=ast.Load()), v), args=[v.func], keywords=[]), v)
+            alloc = ast.copy_location(ast.Assign(targets=[ast.copy_location(ast.Name(id=new, ctx=ast.Store()), v)], value=alloc_call), s)
+            s.value = ast.copy_location(ast.Name(id=new, ctx=ast.Load()), v)
+            for st in (alloc,):
+                if hasattr(s, "_src"):
+                    st._src = s._src  # type: ignore[attr-defined]
+            return [alloc, *prefix, *body, s]
+
+        def _block(self, ctx, stmts, taken, origin, stack):  # noqa: ANN001
+            out = []
+            for s0 in stmts:
+                for s in self._split(ctx, s0, stack):
+                    for s1 in [*self._hoist(ctx, s, taken, stack), s]:
+                        got = self._ctor(ctx, s1, taken, origin, stack)
+                        if got is not None:
+                            for x in got:
+                                x._c11_ctor_done = True  # type: ignore[attr-defined]
+                            out += got
+                        else:
+                            out.append(s1)
+            done = Inliner._block(self, ctx, out, taken, origin, stack)
+            # single-expression helpers substituted by the expression inliner may have brought further nested helper calls
+            again = []
+            changed = False
+            for s in done:
+                pre = self._hoist(ctx, s, taken, stack) if not getattr(s, "_c11_hoisted", False) else []
+                s._c11_hoisted = True  # type: ignore[attr-defined]
+                if pre:
+                    changed = True
+                    again += Inliner._block(self, ctx, pre, taken, origin, stack)
+                again.append(s)
+            return again if changed else done
 
     v = ClassInliner(repo, T, allow, max_depth).view(fi)
     v.qualname = f"{fi.qualname}~inl@{concrete.name}"
     v.cls = concrete
     cache[key] = v
     return v
+
+
+
+def _strict_children(e: ast.AST) -> list[ast.AST]:
+    """Sub-expressions of `e` that are evaluated unconditionally, in evaluation order."""
+    if isinstance(e, ast.Call):
+        out: list[ast.AST] = []
+        if isinstance(e.func, ast.Attribute):
+            out.append(e.func.value)
+        elif not isinstance(e.func, ast.Name):
+            out.append(e.func)
+        return out + list(e.args) + [k.value for k in e.keywords]
+    if isinstance(e, (ast.Attribute, ast.Starred, ast.NamedExpr, ast.FormattedValue)):
+        return [e.value]
+    if isinstance(e, ast.Subscript):
+        return [e.value, e.slice]
+    if isinstance(e, ast.BinOp):
+        return [e.left, e.right]
+    if isinstance(e, ast.UnaryOp):
+        return [e.operand]
+    if isinstance(e, ast.Compare):
+        return [e.left, e.comparators[0]]
+    if isinstance(e, ast.BoolOp):
+        return [e.values[0]]
+    if isinstance(e, ast.IfExp):
+        return [e.test]
+    if isinstance(e, (ast.Tuple, ast.List, ast.Set)):
+        return list(e.elts)
+    if isinstance(e, ast.Dict):
+        return [x for k, v in zip(e.keys, e.values) for x in (k, v) if x is not None]
+    if isinstance(e, ast.JoinedStr):
+        return list(e.values)
+    if isinstance(e, ast.Slice):
+        return [x for x in (e.lower, e.upper, e.step) if x is not None]
+    return []
+
+
+def _trivial(e: ast.AST) -> bool:
+    """Evaluating `e` reads no state that a call could change (local names and constants only)."""
+    return not any(isinstance(x, (ast.Attribute, ast.Subscript, ast.Call, ast.Await, ast.Yield, ast.YieldFrom, ast.NamedExpr, *COMPS)) for x in ast.walk(e))
+
+
+def _replace_child(parent_: ast.AST, old: ast.AST, new: ast.AST) -> None:
+    if isinstance(parent_, ast.Call) and isinstance(parent_.func, ast.Attribute) and parent_.func.value is old:
+        parent_.func.value = new
+        return
+    for f in parent_._fields:
+        v = getattr(parent_, f, None)
+        if v is old:
+            setattr(parent_, f, new)
+            return
+        if isinstance(v, list):
+            for i, x in enumerate(v):
+                if x is old:
+                    v[i] = new
+                    return
+                if isinstance(x, ast.keyword) and x.value is old:
+                    x.value = new
+                    return
 
 
 def path_conditions_nokill(fn_node: ast.AST) -> dict[int, list]:
